@@ -53,6 +53,9 @@ class _Stream:
     def read(self, n):
         return b""
 
+    def seek(self, off, whence=0):
+        return 0
+
 
 def _sample(nch, note, semi, cents, loops):
     enc = StreamEncoding(endianess=Endianess.LITTLE, sample_width=2, num_interleaved_channels=1)
@@ -165,6 +168,9 @@ class _Bytes:
 
     def read(self, n):
         return self.io.read(n)
+
+    def seek(self, off, whence=0):
+        return self.io.seek(off, whence)
 
 
 def h_riff(nch: int, frames: int, tail: int, nloops: int, note: int, rate_i: int) -> int:
